@@ -544,7 +544,12 @@ ASSUMPTIONS = [
 
 def _job(args):
     name, a = args[0], args[1:]
-    return globals()[name](modules(), *a)
+    try:
+        mods = modules()
+    except (rsparse.Unsupported, FileNotFoundError) as ex:
+        ob = obligation("C06.%s.load" % name, "parse the FRI sources", [FORMULA, GROUP, FIRST, LAST], "-")
+        return finish(ob, "inconclusive", None, detail="source left the parsed subset / missing: %s" % ex, solver="-")
+    return globals()[name](mods, *a)
 
 
 def run_jobs(jobs):
